@@ -186,6 +186,15 @@ HARNESSES = [
             thorough={'n': 3, 'procs': 2, 'apps': 1, 'lean': True},
             reach=('requested', 'nothing-requested'), timeout=(120, 1200),
             doc='two processes of one sequence: the second request accounts for the first one in the node load'),
+    Harness('H04b-single-instance', start_apps, quick={'n': 2, 'procs': 2, 'apps': 1, 'lean': False,
+                                                      'dist': ('SINGLE_INSTANCE',)}, thorough=None,
+            reach=('requested', 'nothing-requested'), timeout=(90, 0),
+            doc='SINGLE_INSTANCE application with every eligibility dimension of each program symbolic (known, '
+                'enabled, running instance): the whole application goes to an instance that knows and enables all'),
+    Harness('H04b-3procs', start_apps, quick={'n': 2, 'procs': 3, 'apps': 1, 'lean': True}, thorough={'n': 3, 'procs': 3, 'apps': 1, 'lean': True},
+            reach=('requested', 'nothing-requested'), timeout=(90, 1200),
+            doc='three processes of one sequence: the third request accounts for two pending starts, possibly on the '
+                'same instance (the pending loads of one instance add up)'),
     Harness('H04b-2apps', start_apps, quick={'n': 2, 'procs': 1, 'apps': 2, 'lean': True},
             thorough={'n': 3, 'procs': 1, 'apps': 2, 'lean': True},
             reach=('requested', 'nothing-requested'), timeout=(120, 1200),
